@@ -475,7 +475,11 @@ def judgeSend (js : JState) (v2 : Bool) (req : List SeriesD) (o : ImplOut) : Lis
     match newPts.filter (fun p => p.2.t > futureLimit) with
     | (key, p) :: _ => [s!"violation phantom kind=future-st-zero proto={proto} key={key} t={p.t}"]
     | [] => []
-  let collides := fun (a : Acc) => (js.pre.get a.x.key).any fun q => q.t == a.x.t && q.val != a.x.val
+  -- a stored (or, through the out-of-order window, another accepted) sample with the same timestamp and
+  -- another value: which of the two a query shows is not prescribed
+  let collides := fun (a : Acc) =>
+    ((js.pre.get a.x.key).any fun q => q.t == a.x.t && q.val != a.x.val) ||
+    (decide (js.oooWin > 0) && k.acc.any fun b => b.x.key == a.x.key && b.x.t == a.x.t && b.x.val != a.x.val)
   let vMissing :=
     if mustFail then [] else
     match k.acc.filter (fun a => a.clean && !collides a &&
